@@ -215,7 +215,7 @@ def atom(k, lo):
     return bool
 
 
-NCOMP = 13
+NCOMP = 17
 
 
 def composite(k, a, b):
@@ -243,14 +243,22 @@ def composite(k, a, b):
         return {a} if _hashable_atom(a) else None
     if k == 11:
         return frozenset([a, b]) if _hashable_atom(a) and _hashable_atom(b) else None
-    return {Optional('k', default=[]): [a], object: b}
+    if k == 12:
+        return {Optional('k', default=[]): [a], object: b}
+    if k == 13:
+        return []                      # empty patterns: only an empty container of that very type conforms
+    if k == 14:
+        return set()
+    if k == 15:
+        return ()
+    return {Optional('d', default={}): dict, 'k': a}
 
 
 def _hashable_atom(a):
     return type(a) is not Ref and a is not is_even and a is not inv_pred
 
 
-NTGT = 22
+NTGT = 26
 
 
 def target(k, x, y):
@@ -296,7 +304,15 @@ def target(k, x, y):
         return frozenset(['a', 1])
     if k == 20:
         return {'k': [x, y]}
-    return {'k': {'k': x}}
+    if k == 21:
+        return {'k': {'k': x}}
+    if k == 22:
+        return ()
+    if k == 23:
+        return set()
+    if k == 24:
+        return ''
+    return 0
 
 
 def _snapshot(t):
@@ -328,6 +344,18 @@ def _check(p, t):
             reach('default_filled')
         if spec.matches(t) is not True:
             return fail(why='matches() disagrees', pattern=rp, t=t)
+        if isinstance(got.value, dict):
+            # a caller may edit what it got back (e.g. the list/dict an Optional default produced); the next evaluation of the
+            # same Match object must start from the pattern again
+            for v in got.value.values():
+                if type(v) is list:
+                    v.append('edited-by-caller')
+                elif type(v) is dict:
+                    v['edited-by-caller'] = 1
+            again = run(lambda: glom(t, spec, glom_debug=True))
+            if again.kind != 'ok' or again.value != exp[1]:
+                if not any(v is tv for v in got.value.values() for tv in (t.values() if isinstance(t, dict) else [])):
+                    return fail(why='second evaluation of the same Match object differs', again=again, exp=exp[1])
         if spec.verify(t) != exp[1]:
             return fail(why='verify() disagrees', pattern=rp, t=t)
         return True
